@@ -79,3 +79,44 @@ pub fn cls<T: core::fmt::Debug, E: core::fmt::Debug>(r: zlink_core::Result<core:
         Err(e) => format!("other:{}", ident(&format!("{e:?}"))),
     }
 }
+
+// ---------------------------------------------------------------------------- codegen corpus (C15)
+
+fn hexj<T: Serialize>(v: &T) -> String {
+    match serde_json::to_string(v) {
+        Ok(s) => hex(s.as_bytes()),
+        Err(_) => "unserialisable".into(),
+    }
+}
+
+/// what a generated method decoded from a success reply, serialised again
+pub fn reser<T: Serialize + core::fmt::Debug, E: core::fmt::Debug>(r: zlink_core::Result<core::result::Result<T, E>>) -> String {
+    match r {
+        Ok(Ok(v)) => hexj(&v),
+        other => cls(other),
+    }
+}
+
+/// the method error a generated method decoded, serialised again
+pub fn reser_err<T: core::fmt::Debug, E: Serialize + core::fmt::Debug>(r: zlink_core::Result<core::result::Result<T, E>>) -> String {
+    match r {
+        Ok(Err(e)) => hexj(&e),
+        other => cls(other),
+    }
+}
+
+/// a generated type decoded from the IDL's spelling and serialised again
+pub fn reser_json<'a, T: Serialize + Deserialize<'a>>(text: &'a str) -> String {
+    match serde_json::from_str::<T>(text) {
+        Ok(v) => hexj(&v),
+        Err(_) => "json".into(),
+    }
+}
+
+pub fn enc_json<T: Serialize>(v: &T) -> String {
+    hexj(v)
+}
+
+pub fn jv(text: &str) -> serde_json::Value {
+    serde_json::from_str(text).unwrap()
+}
